@@ -200,7 +200,17 @@ pub fn typed_shape(e: Option<ast::Expr>, o: &mut String) {
     match e {
         ast::Expr::BinExpr(b) => {
             match b.op_kind().and_then(bop_index) {
-                Some(k) => o.push_str(&format!("b{k} ")),
+                Some(k) => {
+                    // the other operator accessors agree: the token is the operator's spelling (composite
+                    // operators are glued into one token by the tree builder), sub_exprs = (lhs, rhs)
+                    let tok_ok = b.op_token().map(|t| t.text() == BOPS[k].0).unwrap_or(false);
+                    let (l, r) = b.sub_exprs();
+                    if tok_ok && l == b.lhs() && r == b.rhs() {
+                        o.push_str(&format!("b{k} "))
+                    } else {
+                        o.push_str(&format!("b{k}!accessors "))
+                    }
+                }
                 None => o.push_str("b? "),
             }
             typed_shape(b.lhs(), o);
